@@ -260,8 +260,9 @@ def centroid_2dg(data, error=None, mask=None):
         weights[data.mask] = 0.0
 
     mask = data.mask
-    data.fill_value = 0.0
-    data = data.filled()
+    # (a copy of a masked array shares the fill value with the input:
+    # fill without assigning it)
+    data = data.filled(0.0)
 
     # Subtract the minimum of the data to make the data values positive.
     # This prevents issues with the moment estimation in data_properties.
